@@ -73,5 +73,6 @@ func TestC04(t *testing.T) {
 		"batch ids are time based: a batch started on a recovered image within the same millisecond as the crashed one could share its id; continuation writes on recovered images are plain Puts, so the assumption is not exercised",
 		"evaluations counts opened images")
 	defer finishProperty(st)
+	t.Run("merge-batch-probe", func(t *testing.T) { c04MergeBatchProbe(t, st) })
 	checkCases(t, st, func(t *rapid.T) { c03Run(t, st, "C04", c04Profile, c04Setup) })
 }
